@@ -492,7 +492,7 @@ func runRestart(t *testing.T, r *vf.Run, pc *world.ProducerChain, nHeights int, 
 	res.bounds = map[string]any{
 		"restart_da_heights": nHeights, "restart_content_kinds": r6Names[:], "restart_start_heights": []int{0, 1, 3}, "restart_block_orders": []string{"ascending", "descending"},
 		"restart_configurations": vf.Pick(r, "(start 0|1|3, ascending), (start 0, descending)", "all 6 (start height x block order)"),
-		"restart_executions": ex.Executions, "restart_executions_with_a_stop_and_rescan": st.stops.Load(), "restart_executions_without_stop_point": st.noStop.Load(),
+		"restart_executions":     ex.Executions, "restart_executions_with_a_stop_and_rescan": st.stops.Load(), "restart_executions_without_stop_point": st.noStop.Load(),
 		"restart_max_events_lost_at_a_stop": st.maxLost.Load(), "restart_items_handed_over_again_after_restart": st.rehanded.Load(), "restart_items_first_scanned_after_restart": st.neverScanned.Load(),
 		"restart_items_exempt_taken_by_sync_before_restart": st.exemptSync.Load(), "restart_items_exempt_block_applied": st.exemptDone.Load(),
 	}
